@@ -22,6 +22,13 @@ program, compiled by exactly one worker; base models are pre-built serially in s
   Every (base, replaced, template) that type-checks is built with insert_after=None; every insert_after
   alternative is built for one template per replaced-set (thorough) / per base (quick).
 
+  sequence  ::= (E2-style histories) for every base and for the first volume parameter / the first pair of volume
+              parameters: ALL ordered sequences of length 2 (thorough: also 3) of distinct translations that share
+              base, default name (name=None, filename=None), new-parameter table and insert_after and differ ONLY
+              in the equations (size 1: affine | power | shift | cond | interm; size 2: affine2 | chain2 | mix),
+              built one after the other in ONE fresh process (forked from a zygote that has only imported
+              sasmodels); after all are built EVERY member is evaluated (mono 1-D, dispersed 1-D, mono 2-D).
+
 Per program, inputs are enumerated deviation-bounded (<= 2 dimensions off default): off-nominal values,
 dispersity alternatives on each of <= 2 NEW parameters and on one retained base volume parameter, cutoff,
 1-D / 2-D, effective-radius mode (1, 2, 0).
@@ -275,8 +282,17 @@ def base_model(ctx, base):
     return build.model(ctx.notes[base] if base.startswith("@") else base)
 
 
+def _preload():
+    """zygote: import the library, evaluate and build nothing"""
+    import sasmodels.core, sasmodels.direct_model, sasmodels.kerneldll, sasmodels.generate  # noqa
+    import sasmodels.weights, sasmodels.details  # noqa
+
+
 def setup(ctx):
     import os
+    from .. import zygote
+    # pristine process for the sequence cases, forked before this process has loaded or generated anything
+    zygote.start(ctx, "c16", _preload)
     from sasmodels import core
     names = [b for b in (QUICK_BASES if ctx.quick else ALL_BASES) if not b.startswith("@")]
     bad = build.prebuild(ctx, names)
@@ -329,6 +345,13 @@ def cases(ctx):
             for alt in insert_alternatives(info, rep, new_ids):
                 out.append({"kind": "prog", "base": base, "rep": rep, "template": tn, "insert": alt})
     out.append({"kind": "python-base"})
+    # sequences of reparameterisations that differ only in the equations, built in one process
+    for base in bases:
+        info = base_info(ctx, base)
+        vols = [p.id for p in info.parameters.kernel_parameters if p.type == "volume" and p.length == 1]
+        out.append({"kind": "sequence", "base": base, "rep": vols[:1], "depth": 2 if ctx.quick else 3})
+        if len(vols) >= 2:
+            out.append({"kind": "sequence", "base": base, "rep": vols[:2], "depth": 2 if ctx.quick else 3})
     return out
 
 
@@ -365,6 +388,8 @@ def run_case(case, ctx):
         return _run_prog(case, ctx)
     if case["kind"] == "python-base":
         return _run_python_base(case, ctx)
+    if case["kind"] == "sequence":
+        return _run_sequence(case, ctx)
     raise HarnessError("unknown case kind %r" % case["kind"])
 
 
@@ -601,6 +626,143 @@ def _run_python_base(case, ctx):
                   branches=["python-base-judged"])
 
 
+# ------------------------------------------------------------------------------------------------
+# sequences: same base, same default name, same new table and placement - different equations
+
+S1 = ["affine", "power", "shift", "cond", "interm"]
+S2 = ["affine2", "chain2", "mix"]
+
+
+def seq_template(tname, rep, info):
+    """like template(), but every member of a group has the SAME new-parameter rows"""
+    P = {p.id: p for p in info.parameters.kernel_parameters}
+    d = [float(P[r].default) for r in rep]
+    if len(rep) == 1:
+        p, d0 = rep[0], d[0]
+        rows = [_row("x", 1.1 * d0, "volume")]
+        if tname == "affine":
+            b = 0.25 * d0
+            return dict(rows=rows, text="%s = 2.0*x + %r" % (p, b), fn=lambda v: {p: 2.0 * v["x"] + b})
+        if tname == "power":
+            c = 1.5 / d0
+            return dict(rows=rows, text="%s = %r*pow(x, 2.0)" % (p, c), fn=lambda v: {p: c * v["x"] ** 2.0})
+        if tname == "shift":
+            b = 0.5 * d0
+            return dict(rows=rows, text="%s = x + %r" % (p, b), fn=lambda v: {p: v["x"] + b})
+        if tname == "cond":
+            c0 = 0.9 * d0
+            return dict(rows=rows, text="%s = (x > %r ? x : %r + 0.5*(%r - x))" % (p, c0, c0, c0),
+                        fn=lambda v: {p: (v["x"] if v["x"] > c0 else c0 + 0.5 * (c0 - v["x"]))})
+        if tname == "interm":
+            return dict(rows=rows, text="h = 0.5*x\n%s = h*3.0" % p, fn=lambda v: {p: (0.5 * v["x"]) * 3.0})
+    else:
+        p1, p2 = rep
+        d1, d2 = d
+        rows = [_row("x", 1.1 * d1, "volume"), _row("y", 0.9 * d2, "volume")]
+        if tname == "affine2":
+            return dict(rows=rows, text="%s = 2.0*x + %r\n%s = 1.5*y + %r" % (p1, 0.25 * d1, p2, 0.125 * d2),
+                        fn=lambda v: {p1: 2.0 * v["x"] + 0.25 * d1, p2: 1.5 * v["y"] + 0.125 * d2})
+        if tname == "chain2":
+            return dict(rows=rows, text="s = x + y\nd = s - 2.0*y\n%s = 0.5*(s + d)\n%s = 0.5*(s - d)" % (p1, p2),
+                        fn=lambda v: {p1: 0.5 * ((v["x"] + v["y"]) + ((v["x"] + v["y"]) - 2.0 * v["y"])),
+                                      p2: 0.5 * ((v["x"] + v["y"]) - ((v["x"] + v["y"]) - 2.0 * v["y"]))})
+        if tname == "mix":
+            k = 0.25 * d1 / d2
+            return dict(rows=rows, text="%s = 0.5*x + %r*y\n%s = 1.25*y" % (p1, k, p2),
+                        fn=lambda v: {p1: 0.5 * v["x"] + k * v["y"], p2: 1.25 * v["y"]})
+    raise HarnessError("unknown sequence template %r" % tname)
+
+
+def _seq_one(arg):
+    """
+    (fresh process) reparameterize + build the members of `seq` in order, then evaluate every one of them.
+    Returns one entry per member: [] if it equals the base model at the translated parameters, else messages.
+    """
+    import tempfile
+    from sasmodels import core
+    from sasmodels.direct_model import call_kernel
+    tempfile.tempdir = arg["scratch"]
+    base, rep, seq = arg["base"], arg["rep"], arg["seq"]
+    binfo = core.load_model_info(base)
+    built = []
+    with warnings.catch_warnings():
+        warnings.simplefilter("ignore")
+        for tn in seq:
+            tpl = seq_template(tn, rep, binfo)
+            dinfo = core.reparameterize(binfo, [list(x) for x in tpl["rows"]], tpl["text"])
+            built.append((tpl, dinfo, core.build_model(dinfo, dtype="double", platform="dll")))
+        bmodel = core.build_model(binfo, dtype="double", platform="dll")
+    bdefaults = {p.id: float(p.default) for p in binfo.parameters.kernel_parameters}
+    out = []
+    for tpl, dinfo, model in built:
+        msgs = []
+        cpars = {p.name: p for p in dinfo.parameters.call_parameters}
+        vals = {p.id: float(p.default) for p in dinfo.parameters.kernel_parameters}
+        for dim, pd in (("1d", False), ("1d", True), ("2d", False)):
+            qv = [np.array(Q1)] if dim == "1d" else [np.array(Q2)[:, 0].copy(), np.array(Q2)[:, 1].copy()]
+            kd, kb = model.make_kernel(qv), bmodel.make_kernel(qv)
+            pars = dict(vals, scale=SCALE, background=BACKGROUND)
+            disp = {}
+            if pd:
+                pars["x_pd"], pars["x_pd_n"], pars["x_pd_type"] = 0.2, 3, "gaussian"
+                disp["x"] = refmodel.par_dist(cpars["x"], "gaussian", 3, 0.2, 3.0, vals["x"])
+
+            def point_fn(pt, _kb=kb):
+                bp = {k: v for k, v in pt.items() if k in bdefaults}
+                for k, v in tpl["fn"](pt).items():
+                    bp[k] = float(v)
+                p = refmodel.raw_point(_kb, dict(bp, scale=1.0, background=0.0), 0)
+                return None if p["w"] == 0.0 else p
+            ref = G.mean_from_points(point_fn, len(Q1), dict(vals, scale=SCALE, background=BACKGROUND), disp, 0.0)
+            with np.errstate(all="ignore"):
+                got = call_kernel(kd, dict(pars), cutoff=0.0)
+            ok, err = _close(got, ref["I"], ref["mag"])
+            if not ok:
+                msgs.append("%s%s pars=%s: derived model %s, base at translated parameters %s"
+                            % (dim, " dispersed" if pd else "", pars, np.asarray(got), ref["I"]))
+        out.append(msgs)
+    return out
+
+
+def _run_sequence(case, ctx):
+    import itertools
+    from .. import zygote
+    r = R()
+    base, rep = case["base"], case["rep"]
+    binfo = base_info(ctx, base)
+    names = S1 if len(rep) == 1 else S2
+    target = ctx.notes[base] if base.startswith("@") else base
+    where = ""
+    if base.startswith("@"):
+        where = "\n  where %s is the generated plug-in model:\n%s" % (base, open(ctx.notes[base]).read())
+    fk0 = {"clause": "sequence", "base": base, "size": len(rep)}
+
+    def show(seq):
+        return "\n".join("  %d. reparameterize(%r, %r, %r)   # name=None, filename=None, insert_after=None"
+                         % (i + 1, base, seq_template(tn, rep, binfo)["rows"], seq_template(tn, rep, binfo)["text"])
+                         for i, tn in enumerate(seq))
+    seqs = [[tn] for tn in names]      # each alone first: compiles each program once, and is the depth-1 history
+    for depth in range(2, case["depth"] + 1):
+        seqs += [list(t) for t in itertools.permutations(names, depth)]
+    for seq in seqs:
+        out = zygote.call(ctx, "c16", "mc.props.c16:_seq_one",
+                          {"base": target, "rep": rep, "seq": seq, "scratch": ctx.scratch})
+        br = ["sequence:%d" % len(seq)]
+        if "value" not in out:
+            r.fail("building in one fresh process, in this order:\n%s\nfailed: %s%s" % (show(seq), out, where),
+                   dict(fk0, what="raises"), trans=len(seq), branches=br)
+            continue
+        bad = [(i, m) for i, m in enumerate(out["value"]) if m]
+        if bad:
+            i, m = bad[0]
+            r.fail("built in one fresh process, in this order:\n%s\nthen every model evaluated: number %d (%s) is wrong "
+                   "(%d of %d wrong)\n  %s%s" % (show(seq), i + 1, seq[i], len(bad), len(seq), "\n  ".join(m[:3]), where),
+                   dict(fk0, what="first-wrong" if i == 0 else "later-wrong"), trans=len(seq), branches=br)
+            continue
+        r.ok(nt=len(seq) > 1, outcome="sequence:%d:ok" % len(seq), trans=len(seq), branches=br)
+    return r
+
+
 def finish(ctx, report):
     report.coverage = {"programs": int(report.extra.get("programs", 0))}
     for t in T1 + T2:
@@ -620,3 +782,8 @@ def finish(ctx, report):
     report.require("reff-mode", 100, "effective-radius modes")
     report.require("python-base-judged", 1, "pure-Python base model")
     report.require("refused-orientation-split", 1, "insert_after between the orientation angles")
+    nb = len(QUICK_BASES if ctx.quick else ALL_BASES)
+    report.require("sequence:1", 5 * nb, "single builds in a fresh process")
+    report.require("sequence:2", 20 * nb, "ordered pairs of reparameterisations differing only in the equations")
+    if not ctx.quick:
+        report.require("sequence:3", 60 * nb, "ordered triples of reparameterisations differing only in the equations")
